@@ -45,6 +45,9 @@ def extract(M, net, num=float):
     nid = {id(n): f"n{i}" for i, n in enumerate(nodes)}
     desc = {"nodes": [nid[id(n)] for n in nodes], "links": [], "origins": [], "dests": []}
     objmap = {nid[id(n)]: n for n in nodes}
+    off = {nid[id(n)]: num(n.beta_off) for n in nodes if getattr(n, "_vf_user", False) and hasattr(n, "beta_off")}
+    if off:  # user-defined node kind with its own node rule (vf/userkinds.OffRampNode)
+        desc["node_off"] = off
     rev = {}
     k = 0
     for u in nodes:
@@ -92,7 +95,8 @@ def extract(M, net, num=float):
                     "node": nid[id(n)],
                     "kind": kind,
                     "C": (num(o.C) if kind in ("ramp", "simple") else None),
-                    "eq": (o.flow_eq_type if kind in ("ramp", "simple") else None),
+                    # (the plain characters: a member of a string enumeration or a NumPy string reads the same)
+                    "eq": (("".join(o.flow_eq_type) if isinstance(o.flow_eq_type, str) else o.flow_eq_type) if kind in ("ramp", "simple") else None),
                 }
             )
             if kind == "main" and getattr(o, "_vf_user", False) and hasattr(o, "cap"):  # user kind derived from the mainstream origin
